@@ -139,6 +139,34 @@ pub struct CtxProbe {
     /// (actor, derived dot, derived add clock) for every probed actor
     pub derived: Vec<(u8, DotT, Clock)>,
     pub derived_rm: Clock,
+    /// anything else wrong with this read (reported as a violation by C07)
+    pub note: Option<String>,
+}
+
+/// The same read taken through `ReadCtx::split()`: the value must be the value of the read and the remaining
+/// `ReadCtx<()>` must carry the same two clocks and derive the same contexts.
+pub fn split_probe<V: PartialEq>(entry: &str, elem: Option<String>, read: &dyn Fn() -> crdts::ctx::ReadCtx<V, u8>, actors: &[u8]) -> CtxProbe {
+    let whole = read();
+    let (val, c) = read().split();
+    let derived = actors
+        .iter()
+        .map(|a| {
+            let (_, c) = read().split();
+            let ac = c.derive_add_ctx(*a);
+            (*a, (ac.dot.actor, ac.dot.counter), vclock_to(&ac.clock))
+        })
+        .collect();
+    let (_, c2) = read().split();
+    let mut note = None;
+    // (`==` of a Map value holding an MVReg with duplicated entries -- known finding MAP-T5 -- panics inside MVReg::eq:
+    // that is C20's subject, not a statement about split())
+    if std::panic::catch_unwind(std::panic::AssertUnwindSafe(|| val != whole.val)).unwrap_or(false) {
+        note = Some("split() changed the value".to_string());
+    }
+    if c.add_clock != whole.add_clock || c.rm_clock != whole.rm_clock {
+        note = Some(format!("split() changed the clocks: add {:?} -> {:?}, rm {:?} -> {:?}", vclock_to(&whole.add_clock), vclock_to(&c.add_clock), vclock_to(&whole.rm_clock), vclock_to(&c.rm_clock)));
+    }
+    CtxProbe { entry: format!("{entry}.split()"), elem, add_clock: vclock_to(&c.add_clock), rm_clock: vclock_to(&c.rm_clock), derived, derived_rm: vclock_to(&c2.derive_rm_ctx().clock), note }
 }
 
 pub trait Subject: Sized + 'static {
